@@ -40,6 +40,9 @@ pub fn main() {
             // search <case> <seed> <budget_ms>: prints "FOUND <case-id> <hex> <msg>" for the first failure per case, or "NONE <case-id> <evaluations>"
             let seed: u64 = args[3].parse().unwrap();
             let budget = Duration::from_millis(args[4].parse().unwrap());
+            // optional cap on the number of random inputs per case: makes the amount of work (and the evidence counts)
+            // independent of machine speed for every case that is fast enough to reach it within the time budget
+            let max_random: u64 = if args.len() > 5 { args[5].parse().unwrap() } else { u64::MAX };
             let mut any = false;
             for i in find(&cases, &args[2]) {
                 let c = &cases[i];
@@ -61,7 +64,9 @@ pub fn main() {
                     if let Err(e) = run_guarded(c, &inp) { found = Some((inp, e)); break; }
                 }
                 // 2. random boundary-biased mix, sometimes a special in one slot
-                while found.is_none() && t0.elapsed() < budget {
+                let mut nrand = 0u64;
+                while found.is_none() && t0.elapsed() < budget && nrand < max_random {
+                    nrand += 1;
                     let mut inp = Vec::new();
                     for (j, op) in c.ops.iter().enumerate() {
                         if rng.below(3) == 0 { let s = &sp[j]; inp.extend_from_slice(&s[rng.below(s.len() as u64) as usize]); }
